@@ -149,6 +149,17 @@ theorem layout_scale (c : Cfg) (k : Nat) (hk : 1 ≤ k) (ps : List Piece) :
     intro t _
     cases t <;> simp [scaleTok, erase]
 
+/-- Layout INSIDE a keyword token: `_AND` / `_OR` (and every other terminal whose name starts with `_`) absorb the line break in front of a
+    continuation line (`(\r?\n[\t ]*)+and[ \t]`), so a blank line, trailing blanks, CRLF or a rescaled indentation there change only the TEXT of
+    that token - which Lark filters out of the tree: what the LALR parser can see is the same, whatever the two texts are. -/
+theorem layout_underscore_token_text (c : Cfg) (pre post : List Piece) (ty v v' : String) (h : ty.startsWith "_" = true) :
+    layoutE c (pre ++ .tok ty v :: post) = layoutE c (pre ++ .tok ty v' :: post) := by
+  rw [layoutE_eq_goE, layoutE_eq_goE]
+  exact goE_congr c _ _ (goE_tok_text c ty v v' h post) pre none St.init
+
+/-- non-vacuity: the continuation keywords are `_`-terminals. -/
+example : "_AND".startsWith "_" = true ∧ "_OR".startsWith "_" = true := by simp
+
 /-- non-vacuity / sanity: scaling by 0 is NOT harmless (the hypothesis k ≥ 1 is needed). -/
 example : layoutE pinnedCfg (scaleP 0 false [.tok "_FLOW" "flow", .nl false, .ws .sp, .tok "NAME" "b", .nl false]) ≠
     layoutE pinnedCfg [.tok "_FLOW" "flow", .nl false, .ws .sp, .tok "NAME" "b", .nl false] := by
